@@ -70,13 +70,43 @@ class Handle:
     __str__ = __repr__
 
 
+def main_box(s: str):
+    """An instance of a class defined in `__main__` (what a value is when its class is defined in the script or notebook
+    that runs the pipeline): pickle stores such an object by reference to `__main__`, cloudpickle by value.  It prints
+    as the string it wraps."""
+    import sys
+    main = sys.modules["__main__"]
+    cls = getattr(main, "VerifBox", None)
+    if cls is None:
+        class VerifBox:
+            def __init__(self, s):
+                self.s = s
+
+            def __str__(self):
+                return self.s
+
+            __repr__ = __str__
+
+            def __eq__(self, other):
+                return type(other).__name__ == "VerifBox" and other.s == self.s
+
+            def __hash__(self):
+                return hash(self.s)
+        VerifBox.__module__ = "__main__"
+        VerifBox.__qualname__ = "VerifBox"
+        main.VerifBox = cls = VerifBox
+    return cls(s)
+
+
 def input_value(name: str, desc: dict):
     if "scalar" in desc:
-        return desc["scalar"]
+        return main_box(desc["scalar"]) if desc.get("main_class") else desc["scalar"]
     shape = tuple(desc["shape"])
     arr = np.empty(shape, dtype=object)
     for idx in itertools.product(*[range(d) for d in shape]):
         arr[idx] = f"{name}[{','.join(map(str, idx))}]"
+        if desc.get("main_class"):
+            arr[idx] = main_box(arr[idx])
     if desc.get("kind") == "list":
         return arr.tolist()
     return arr
@@ -373,6 +403,8 @@ def to_nested(v):
         return [to_nested(x) for x in v]
     if isinstance(v, np.generic):
         v = v.item()
+    if type(v).__name__ == "VerifBox":
+        return "VerifBox:" + v.s
     return v
 
 
